@@ -79,8 +79,24 @@ impl SnapshotTracker {
 	/// Called when a new snapshot is created. The sequence number is added
 	/// to the tracking set, ensuring compaction will preserve versions
 	/// visible to this snapshot.
+	#[cfg(test)]
 	pub(crate) fn register(&self, seq_num: u64) {
 		*self.snapshots.lock().entry(seq_num).or_insert(0) += 1;
+	}
+
+	/// Reads the current sequence number and registers a snapshot at it in one step with
+	/// respect to `get_all_snapshots()`.
+	///
+	/// A compaction captures the list of snapshots when it starts. A reader that had read
+	/// its sequence number before that capture but registered only after it was missed:
+	/// the compaction dropped the versions the reader was about to read. Under the tracker's
+	/// lock a snapshot is either in the captured list or reads a sequence number that is not
+	/// older than the capture.
+	pub(crate) fn register_current(&self, current: impl FnOnce() -> u64) -> u64 {
+		let mut g = self.snapshots.lock();
+		let seq_num = current();
+		*g.entry(seq_num).or_insert(0) += 1;
+		seq_num
 	}
 
 	/// Unregisters a snapshot with the given sequence number.
@@ -145,11 +161,12 @@ pub(crate) struct Snapshot {
 }
 
 impl Snapshot {
-	/// Creates a new snapshot at the current sequence number
-	pub(crate) fn new(core: Arc<Core>, seq_num: u64) -> Self {
+	/// Creates a new snapshot at the current visible sequence number
+	pub(crate) fn new(core: Arc<Core>) -> Self {
 		// Register this snapshot's sequence number so compaction knows
-		// to preserve versions visible to this snapshot
-		core.snapshot_tracker.register(seq_num);
+		// to preserve versions visible to this snapshot. The number is read and
+		// registered in one step (see `SnapshotTracker::register_current`).
+		let seq_num = core.snapshot_tracker.register_current(|| core.seq_num());
 
 		Self {
 			core,
